@@ -568,6 +568,10 @@ class Glyph(BaseObject):
         contour.addObserver(observer=self, methodName="_contourChanged", notification="Contour.Changed")
 
     def endSelfContourNotificationObservation(self, contour):
+        if contour.glyph is not self:
+            # the contour was let go when this glyph was removed from its
+            # layer, by now it may belong to another glyph
+            return
         if contour.dispatcher is None:
             # a glyph outside of a font has no dispatcher,
             # the contour must be detached from it all the same
@@ -722,6 +726,10 @@ class Glyph(BaseObject):
         component.addObserver(observer=self, methodName="_componentBaseGlyphDataChanged", notification="Component.BaseGlyphDataChanged")
 
     def endSelfComponentNotificationObservation(self, component):
+        if component.glyph is not self:
+            # the component was let go when this glyph was removed from its
+            # layer, by now it may belong to another glyph
+            return
         if component.dispatcher is None:
             # a glyph outside of a font has no dispatcher,
             # the component must be detached from it all the same
@@ -884,6 +892,10 @@ class Glyph(BaseObject):
         anchor.addObserver(observer=self, methodName="_anchorChanged", notification="Anchor.Changed")
 
     def endSelfAnchorNotificationObservation(self, anchor):
+        if anchor.glyph is not self:
+            # the anchor was let go when this glyph was removed from its
+            # layer, by now it may belong to another glyph
+            return
         if anchor.dispatcher is None:
             # a glyph outside of a font has no dispatcher,
             # the anchor must be detached from it all the same
@@ -1004,6 +1016,10 @@ class Glyph(BaseObject):
         guideline.addObserver(observer=self, methodName="_guidelineChanged", notification="Guideline.Changed")
 
     def endSelfGuidelineNotificationObservation(self, guideline):
+        if guideline.glyph is not self:
+            # the guideline was let go when this glyph was removed from its
+            # layer, by now it may belong to another glyph
+            return
         if guideline.dispatcher is None:
             # a glyph outside of a font has no dispatcher,
             # the guideline must be detached from it all the same
